@@ -44,8 +44,9 @@ SdShapeOK(b) == Len(b) = SdN /\ \A r \in SdIdx : Len(b[r]) = SdN /\ \A c \in SdI
 SdEmptyCells(b) == { rc \in SdCells : At(b, rc) = SdEmpty }
 SdEmptyCount(b) == Cardinality(SdEmptyCells(b))
 SdFull(b) == SdEmptyCells(b) = {}
-(* no digit twice in a unit *)
-SdUnitNoRepeat(b, u) == \A p \in u : At(b, p) # SdEmpty => \A q \in u : (q # p => At(b, q) # At(b, p))
+(* no digit twice in a unit: its filled cells carry as many different digits as there are filled cells *)
+SdUnitNoRepeat(b, u) ==
+  LET filled == { q \in u : At(b, q) # SdEmpty } IN Cardinality({ At(b, q) : q \in filled }) = Cardinality(filled)
 NoRepeat(b) == \A u \in SdUnitsTab : SdUnitNoRepeat(b, u)
 (* every unit shows every digit *)
 Solved(b) == \A u \in SdUnitsTab : { At(b, q) : q \in u } = SdDigits
